@@ -53,6 +53,8 @@ BLOCKS = {
                                    "exogenous\nG = [1., 2., 3.]", 0.0, ['x', 'y', 'z'], ['G']),
     # an exogenous scalar written as an expression; comment texts with a backslash escape and with a triple quote (they are copied into the module's docstring)
     'scalar-expression-exogenous': ("x = 0.5*x + G + S  # see C:\\Users\\new \\u.txt\nErr_Tolerance = 0.01  # \"\"\" quoted\nMaxTime = 2\nexogenous\nG = [1., 2., 3.]\nS = 2*10.", 0.5, ['x'], ['G']),
+    # iterates that overflow: the in-process solver raises (ConvergenceError); a run that ends "normally" with a non-finite value is not a solve
+    'overflowing-iterates': ("x = x*x + 2.\nErr_Tolerance = 0.01\nMaxTime = 2", 0.0, [], []),
     'static-user-time': ("x = 0.5*y + c\ny = 0.5*x + 1\nc = 2.0\nt = 2016.\nErr_Tolerance = 0.01\nMaxTime = 2", 0.5, ['x', 'y'], []),
 }
 
@@ -63,6 +65,10 @@ def generate(name, scratch, history='once'):
     text = BLOCKS[name][0]
     gen = IterativeMachineGenerator(text)
     fname = os.path.join(scratch, 'gen_%s_%s.py' % (name.replace('-', '_'), history.replace('-', '_')))
+    if history == 'inspect-then-main' and name in ('no-time', 'lags'):
+        # the output path is copied into the module's docstring: a Windows-style relative path with a backslash escape in it (the test-suite itself writes 'output\\unittest_output_2.py')
+        os.makedirs(os.path.join(scratch, 'out'), exist_ok=True)
+        fname = os.path.join(scratch, 'out', '..', 'out\\unit_%s.py' % name.replace('-', '_')) if False else os.path.join(scratch, 'out\\unit_%s.py' % name.replace('-', '_'))
     if history == 'inspect-then-main':
         gen.GenerateEquations()
         gen.GenerateFunction()
@@ -166,6 +172,12 @@ def case_run(item):
             L = symx.lift
             props = []
             nonlagged = [v for v, _ in parser.Endogenous]
+            import math as _math
+            nonfinite = [(v, k) for v in nonlagged for k in range(len(getattr(obj, v))) if isinstance(getattr(obj, v)[k], float) and not _math.isfinite(getattr(obj, v)[k])]
+            if nonfinite:
+                if out['viol'] is None:
+                    out['viol'] = {'why': 'the generated module ran to the end and reports a non-finite value for %r (the in-process solver raises for this block)' % (nonfinite[:3],), 'vals': {kk: '1' for kk in syms}}
+                return o
             for k in (1, 2):
                 env = {}
                 for v in nonlagged:
@@ -213,7 +225,9 @@ def case_run(item):
             return o
         D.run_all(path)
         out.update(paths=D.paths, forks=D.forks, queries=D.queries, solver_s=D.solver_s, exhaustive=D.exhaustive, dunknown=D.unknown)
-        # ---- table header (concrete run)
+        # ---- table header (concrete run) - only for blocks the module can solve at all (a block it refuses with ValueError has no table)
+        if not out['outcomes'].get('ran'):
+            return out
         try:
             obj = mod.SFCModel()
             obj.main()
@@ -256,6 +270,10 @@ try:
         print('generated module raises', repr(e)); sys.exit(1)
     parser = EquationParser(); parser.ParseString(text); tol = float(parser.Err_Tolerance)
     bad = False
+    import math
+    for v, _ in parser.Endogenous:
+        if any(isinstance(x, float) and not math.isfinite(x) for x in getattr(obj, v)): print('non-finite value reported for', v, getattr(obj, v)); bad = True
+    if bad: sys.exit(1)
     for k in (1, 2):
         env = {v: getattr(obj, v)[k] for v, _ in parser.Endogenous}
         for v, s in parser.Lagged: env[v] = getattr(obj, s.strip())[k - 1]
